@@ -18,6 +18,7 @@ EXPLANATION = (
     "the destination white given the inverse pairs; equal white points take the identity arm. NEUTRAL (symbolic substitution): for xyz = "
     "k·white the Lab/Luv normal forms give a=b=0, u=v=0 and L=100 at k=1; Lch/Lchuv chroma = hypot(0,0); Luma<->Rgb copies the channel. "
     "Not decided: Oklab(1,0,0) and CAM16 J=100 for white beyond the reported numeric residuals."
+    " ADAPT-NORM: caller-supplied white points reach the diagonal normalised. ALIAS: Lms aliases name their matrix."
 )
 
 
